@@ -158,8 +158,12 @@ static void search_callback(void *arg, ares_status_t status, size_t timeouts,
     return;
   }
 
-  /* We have no more domains to search, return an appropriate response. */
-  if (mystatus == ARES_ENOTFOUND && squery->ever_got_nodata) {
+  /* We have no more domains to search, return an appropriate response.  If any
+   * name along the way existed but had no data of the requested type, report
+   * that rather than the status of whichever name happened to be tried last
+   * (which may also be a SERVFAIL/REFUSED on a single label name, see above).
+   * This matches what ares_getaddrinfo() does. */
+  if (mystatus != ARES_ENODATA && squery->ever_got_nodata) {
     end_squery(squery, ARES_ENODATA, NULL);
     return;
   }
